@@ -22,6 +22,14 @@ AND (the repaired loop of get_status, fixC of Model/Status.v) lists f1 among the
 of the last successful execution; true_reasons (the oracle) reads "changed" that way: no saved state, or not in the saved
 'deps:' list, or modified by the checker's rule (C20_info_reasons_changed).
 
+A missing file dependency (scripted(), every seed, the three backends): together with a modified one, with an uptodate item
+that is false, with a missing target, with a changed SET of file_dep (the added one is the missing one), with a changed checker.
+`run` / `list -s` decide at the FIRST reason get_status meets (DependencyError for the missing file unless a reason for 'run'
+came before the loop over file_dep); `info` (get_log=True) collects every reason and -- since the repair of DependencyStatus,
+fixL of Model/Status.v -- keeps the status the first one decided: its status line is what the run does (shape
+info-status-differs-missing-file-dep when it is not: the later reason overwrote the status; C20_info_agrees,
+C20_info_cmd_agrees, on the code before the repair C20_info_agrees_legacy_refuted).
+
 Ignore mark + checker switch (ignore_switch_scripted, every seed, the three backends; ignore_switch_tail on random histories):
 `run; ignore t; SetChecker <the other one>; Ask <ONE status query>` where step `Ask` is a single `list -s ...` / `info T`
 between the two snapshots, immediately followed by the run the letters / the verdict are compared with.  md5 -> timestamp and
@@ -1967,6 +1975,12 @@ def scripted():
                             ('Write', 0, 3), ('Delete', 1), ('Delete', 7), ('Probe', False)]))
     hs.append((dict(), W + [('SetDef', 0, D([0, 1])), ('SetDef', 1, D([1], utd=[F])), ('SetDef', 2, D([1], True)), ('Run', [], []),
                             ('Delete', 1), ('Delete', 7), ('Probe', False)]))
+    # a missing file_dep together with a changed SET of file_dep (the missing one is the added one; `info` logs added / removed
+    # without deciding anything: still an error), the same with a modified dependency besides; then a changed checker and the
+    # only file_dep missing (`run` executes the task: the checker test comes first)
+    hs.append((dict(), W + [('SetDef', 0, D([0, 1])), ('SetDef', 1, D([1])), ('SetDef', 2, D([1, 2])), ('Run', [], []),
+                            ('SetDef', 0, D([0, 3])), ('SetDef', 2, D([2, 3])), ('Write', 2, 0), ('Delete', 3), ('Probe', False),
+                            ('SetChecker', 'ts'), ('Delete', 1), ('Probe', False)]))
     # checker changed: the documented invalidation (written through by dbm only), then back
     hs.append((dict(group=True, private=True), W + [('SetDef', 0, D([0, 1], True)), ('SetDef', 1, D([2], utd=[('run_once',)])), ('SetDef', 2, D([], utd=[('config', 1)])),
                                                     ('Run', [], []), ('SetChecker', 'ts'), ('Probe', True), ('SetChecker', 'md5'), ('Probe', False),
